@@ -420,6 +420,34 @@ func ruleInternalKeyIsNotAMethod(c *Ctx, rule string) {
 			continue
 		}
 		n++
+		// a flag that is itself (a conjunction ending in) `method != key` says "served" only when the method differs
+		var impliesDiffers func(v ssa.Value, depth int) bool
+		impliesDiffers = func(v ssa.Value, depth int) bool {
+			if depth > 3 {
+				return false
+			}
+			switch x := v.(type) {
+			case *ssa.Const:
+				return x.Value != nil && x.Value.ExactString() == "false"
+			case *ssa.BinOp:
+				if x.Op == token.NEQ && x.X == ssa.Value(method) {
+					s, isStr := strConst(x.Y)
+					return isStr && s == key
+				}
+			case *ssa.Phi:
+				for _, e := range x.Edges {
+					if !impliesDiffers(e, depth+1) {
+						return false
+					}
+				}
+				return len(x.Edges) > 0
+			}
+			return false
+		}
+		if impliesDiffers(served, 0) {
+			c.R.Add(rule, c.fk(f), fmt.Sprintf("return#%d/served-only-for-a-method-other-than-the-405-key", i), c.pos(r), true, "the served flag is a conjunction that ends in `method != key`")
+			continue
+		}
 		q := &an.Query{BlockEdge: differs, Target: func(in ssa.Instruction) bool { return in == ssa.Instruction(r) }}
 		// a return whose served flag is decided by the path: only the paths that say "served"
 		q.Target = nil
@@ -463,4 +491,386 @@ func ruleListHeaderReadCompletely(c *Ctx, rule string) {
 	if n == 0 {
 		c.R.Add(rule, c.fk(handle), "read:"+hACRH+"/all-lines", c.P.Pos(handle.Pos()), false, "the CORS decision no longer reads "+hACRH)
 	}
+}
+
+// ruleInterceptorSelection — C02.R12 / C01.R15: which user function constrains a parameter, and what it is asked.
+//
+// (a) The function stored as a segment's matcher is the accept-all literal (named parameters) or the entry found by
+//     an exact, comma-ok lookup of the rule text in the interceptor table — directly or through a helper all of whose
+//     returns are that. A fallback search (case-folded, prefix, …) lets a regexp rule that merely resembles an
+//     interceptor's key be taken over by that interceptor.
+// (b) A module function that wraps the call of a segment's matcher returns the matcher's verdict on every path: a
+//     pre-filter (empty values are never handed to the function) decides instead of the user's constraint.
+func ruleInterceptorSelection(c *Ctx, rule string) {
+	c.R.Rule(c.R.Property+"."+rule, 1, "a parameter is constrained by exactly the interceptor its rule text names, and that function alone decides")
+	var fromExactLookup func(v ssa.Value, depth int) bool
+	fromExactLookup = func(v ssa.Value, depth int) bool {
+		if depth > 3 {
+			return false
+		}
+		switch x := v.(type) {
+		case *ssa.Const:
+			return x.Value == nil
+		case *ssa.Extract:
+			switch t := x.Tuple.(type) {
+			case *ssa.Lookup:
+				if !t.CommaOk || x.Index != 0 {
+					return false
+				}
+				_, _, ok := locationOf(t.X, 0)
+				return ok && strings.HasSuffix(an.AP(t.X), ".funcs")
+			case *ssa.Call:
+				g := an.StaticCallee(&t.Call)
+				if g == nil || !an.InModule(g) || len(g.Blocks) == 0 {
+					return false
+				}
+				for _, r := range an.Returns(g) {
+					if x.Index >= len(r.Results) || !fromExactLookup(r.Results[x.Index], depth+1) {
+						return false
+					}
+				}
+				return true
+			}
+		case *ssa.Phi:
+			for _, e := range x.Edges {
+				if !fromExactLookup(e, depth+1) {
+					return false
+				}
+			}
+			return len(x.Edges) > 0
+		}
+		return false
+	}
+	n := 0
+	for _, f := range c.libFuncs() {
+		if !strings.HasPrefix(an.FuncKey(f), "syntax.") {
+			continue
+		}
+		an.AllInstrs(f, func(in ssa.Instruction) {
+			st, ok := in.(*ssa.Store)
+			if !ok {
+				return
+			}
+			fa, ok := st.Addr.(*ssa.FieldAddr)
+			if !ok || !isPtrToNamed(fa.X.Type(), c.A.SegmentT) || an.FieldName(fa.X.Type(), fa.Field) != "matcher" {
+				return
+			}
+			n++
+			v := st.Val
+			if ct, isCT := v.(*ssa.ChangeType); isCT {
+				v = ct.X
+			}
+			var okValue func(v ssa.Value, depth int) bool
+			okValue = func(v ssa.Value, depth int) bool {
+				if ct, isCT := v.(*ssa.ChangeType); isCT {
+					v = ct.X
+				}
+				switch v.(type) {
+				case *ssa.Function, *ssa.MakeClosure:
+					return true // the accept-all literal of a named parameter
+				case *ssa.Parameter:
+					// a helper that installs what it is given: every call site hands it such a value
+					args := argsOfParam(v)
+					if len(args) == 0 || depth > 2 {
+						return false
+					}
+					for _, a := range args {
+						if !okValue(a, depth+1) {
+							return false
+						}
+					}
+					return true
+				}
+				return fromExactLookup(v, 0)
+			}
+			good := okValue(v, 0)
+			c.R.Add(rule, c.fk(f), "store:Segment.matcher/exact-table-entry", c.pos(in), good, ifelse(good, "a function literal, or the table entry found by the exact lookup of the rule text", "the constraint function of a segment is "+c.O.Of(st.Val).String()+": not (on every path) the entry an exact lookup of the rule text finds — a rule that only resembles an interceptor's key is handed to that interceptor"))
+		})
+	}
+	// (b) functions of the syntax package that take one candidate value and answer with a verdict (Valid, and any
+	// wrapper around the call of the constraint function): evaluated for a segment of interceptor kind and for one of
+	// named kind, every outcome is the verdict of the constraint function asked with exactly that value.
+	for _, f := range c.libFuncs() {
+		if !strings.HasPrefix(an.FuncKey(f), "syntax.") || f.Signature.Results().Len() != 1 || !isBoolType(f.Signature.Results().At(0).Type()) {
+			continue
+		}
+		if len(f.Params) != 2 || !isStringType(f.Params[1].Type()) || !isPtrToNamed(f.Params[0].Type(), c.A.SegmentT) {
+			continue
+		}
+		asks := false
+		an.AllInstrs(f, func(in ssa.Instruction) {
+			if call, ok := in.(*ssa.Call); ok && strings.HasPrefix(an.CalleeName(&call.Call), "dynamic:") && strings.HasSuffix(an.AP(call.Call.Value), ".matcher") {
+				asks = true
+			}
+		})
+		if !asks {
+			continue
+		}
+		for _, kind := range []string{"Interceptor", "Named"} {
+			kv := c.A.Kind(kind)
+			se := &symEval{c: c}
+			se.truth = func(e string) int {
+				for _, pre := range []string{"EQ(SEG.Type,CONST:", "EQ(CONST:"} {
+					if strings.HasPrefix(e, pre) && strings.Contains(e, "SEG.Type") {
+						if strings.Contains(e, "CONST:"+kv+")") || strings.Contains(e, "CONST:"+kv+",") {
+							return 1
+						}
+						return -1
+					}
+				}
+				for _, pre := range []string{"NE(SEG.Type,CONST:", "NE(CONST:"} {
+					if strings.HasPrefix(e, pre) && strings.Contains(e, "SEG.Type") {
+						if strings.Contains(e, "CONST:"+kv+")") || strings.Contains(e, "CONST:"+kv+",") {
+							return -1
+						}
+						return 1
+					}
+				}
+				return 0
+			}
+			se.model = func(se *symEval, name string, call *ssa.CallCommon, args []sval, st *sstate) ([]sval, bool) {
+				if strings.HasPrefix(name, "dynamic:") && strings.HasSuffix(an.AP(call.Value), ".matcher") {
+					if len(args) == 1 {
+						return []sval{sv("VERDICT(" + args[0].e + ")")}, true
+					}
+				}
+				return nil, false
+			}
+			var bad []string
+			for _, o := range se.outcomes(f, []sval{sv("SEG"), sv("VAL")}) {
+				if o.ret == "VERDICT(VAL)" || (kind == "Named" && o.ret == "CONST:true") { // a named parameter accepts everything
+					continue
+				}
+				bad = append(bad, o.ret)
+			}
+			c.R.Add(rule, c.fk(f), "kind:"+kind+"/verdict=constraint-function(value)", c.P.Pos(f.Pos()), len(bad) == 0, ifelse(len(bad) == 0, "for a segment of this kind the answer is the constraint function's verdict on the value", "for a "+kind+" segment the answer can be "+strings.Join(bad, " | ")+" instead of the constraint function's verdict on the value: a pre-filter or another test decides what the user's function was registered to decide"))
+		}
+	}
+	if n == 0 {
+		c.R.Add(rule, "pkg:syntax", "store:Segment.matcher/exists", "-", false, "no segment constructor installs a constraint function any more")
+	}
+}
+
+// ruleReleasedObjectsStayInside — C07.R7: an object a function gives back to a pool (Context.Destroy, Pool.Put —
+// called or deferred) is not handed out of that function and is not reachable from code that runs after the
+// release:
+//
+//	(a) it is not returned — not as itself, not boxed into an interface, not as the result of one of its own methods
+//	    that returns the receiver (Context.Params());
+//	(b) when the release is deferred, no closure deferred *earlier* in the same function (it runs *later*) captures
+//	    the object or a variable the object is assigned to.
+//
+// The next Get hands the same object to another request: what leaked is now that request's state.
+func ruleReleasedObjectsStayInside(c *Ctx, rule string) {
+	c.R.Rule(c.R.Property+"."+rule, 1, "an object given back to a pool is not returned and not used by code that runs after the release")
+	unbox := func(v ssa.Value) ssa.Value {
+		for i := 0; i < 4; i++ {
+			switch x := v.(type) {
+			case *ssa.MakeInterface:
+				v = x.X
+			case *ssa.ChangeInterface:
+				v = x.X
+			case *ssa.ChangeType:
+				v = x.X
+			case *ssa.TypeAssert:
+				v = x.X
+			default:
+				return v
+			}
+		}
+		return v
+	}
+	returnsReceiver := func(g *ssa.Function) bool {
+		if g == nil || len(g.Blocks) == 0 || len(g.Params) == 0 || g.Signature.Recv() == nil {
+			return false
+		}
+		rets := an.Returns(g)
+		for _, r := range rets {
+			if len(r.Results) != 1 || unbox(r.Results[0]) != ssa.Value(g.Params[0]) {
+				return false
+			}
+		}
+		return len(rets) > 0
+	}
+	n := 0
+	for _, f := range c.libFuncs() {
+		type release struct {
+			in  ssa.Instruction
+			obj ssa.Value
+		}
+		var rels []release
+		an.AllInstrs(f, func(in ssa.Instruction) {
+			call := an.CallOf(in)
+			if call == nil {
+				return
+			}
+			switch an.CalleeName(call) {
+			case "types.(*Context).Destroy":
+				rels = append(rels, release{in, unbox(call.Args[0])})
+			case "sync.(*Pool).Put":
+				if len(call.Args) == 2 {
+					rels = append(rels, release{in, unbox(call.Args[1])})
+				}
+			}
+		})
+		for _, rel := range rels {
+			obj := rel.obj
+			if _, isParam := obj.(*ssa.Parameter); isParam {
+				continue // the caller's object: the caller's obligation (Context.Destroy releases its receiver)
+			}
+			n++
+			aliases := func(v ssa.Value) bool {
+				v = unbox(v)
+				if v == obj {
+					return true
+				}
+				if call, ok := v.(*ssa.Call); ok {
+					if g := an.StaticCallee(&call.Call); g != nil && an.InModule(g) && returnsReceiver(g) && len(call.Call.Args) > 0 && unbox(call.Call.Args[0]) == obj {
+						return true
+					}
+				}
+				return false
+			}
+			bad := ""
+			for _, r := range an.Returns(f) {
+				for i := range r.Results {
+					if aliases(an.ReturnValue(r, i)) {
+						bad = "it is returned at " + c.pos(r)
+					}
+				}
+			}
+			if _, isDefer := rel.in.(*ssa.Defer); isDefer && bad == "" {
+				// cells the object is stored into
+				cells := map[ssa.Value]bool{}
+				an.AllInstrs(f, func(in ssa.Instruction) {
+					if st, ok := in.(*ssa.Store); ok && aliases(st.Val) {
+						cells[st.Addr] = true
+					}
+				})
+				an.AllInstrs(f, func(in ssa.Instruction) {
+					d, ok := in.(*ssa.Defer)
+					if !ok || in == rel.in || bad != "" {
+						return
+					}
+					// deferred earlier = runs later: d precedes the release on a path
+					earlier := (&an.Query{Target: func(t ssa.Instruction) bool { return t == rel.in }}).Search(an.After(in)) != nil
+					if !earlier {
+						return
+					}
+					mc, isMC := d.Call.Value.(*ssa.MakeClosure)
+					if !isMC {
+						return
+					}
+					for _, b := range mc.Bindings {
+						if aliases(b) || cells[b] {
+							bad = "the closure deferred at " + c.pos(in) + " runs after the deferred release and still reaches it through " + an.AP(b)
+						}
+					}
+				})
+			}
+			c.R.Add(rule, c.fk(f), "release:"+an.CalleeName(an.CallOf(rel.in))+"/object-stays-inside", c.pos(rel.in), bad == "", ifelse(bad == "", "the released object is neither returned nor reachable from code that runs after the release", "an object is given back to the pool here, but "+bad+": the next request that obtains it from the pool shares it with this one"))
+		}
+	}
+	_ = n
+}
+
+// ruleNoSharingByStructCopy — C07.R8: a struct of the library that holds pointers (or maps) to objects that are
+// written after their construction — the options object with its interceptor table and its CORS configuration — is
+// never copied by value (`ret := *o`): the copy shares every one of those objects with the original, so what one
+// router's option changes (an interceptor registered for it) shows up in its siblings.
+func ruleNoSharingByStructCopy(c *Ctx, rule string) {
+	c.R.Rule(c.R.Property+"."+rule, 0, "configuration objects are not duplicated by value: a copy would share the mutable objects they point to")
+	mutated := mutatedStructTypes(c)
+	holdsMutable := func(n *types.Named) (string, bool) {
+		st, ok := n.Underlying().(*types.Struct)
+		if !ok {
+			return "", false
+		}
+		for i := 0; i < st.NumFields(); i++ {
+			t := st.Field(i).Type()
+			if p, isPtr := t.Underlying().(*types.Pointer); isPtr {
+				if tn, isNamed := types.Unalias(p.Elem()).(*types.Named); isNamed && tn.Obj().Pkg() != nil && an.InModulePkg(tn.Obj().Pkg()) {
+					if _, isMut := mutated[tn.Origin()]; isMut {
+						return st.Field(i).Name(), true
+					}
+				}
+			}
+		}
+		return "", false
+	}
+	for _, f := range c.libFuncs() {
+		an.AllInstrs(f, func(in ssa.Instruction) {
+			load, ok := in.(*ssa.UnOp)
+			if !ok || load.Op != token.MUL {
+				return
+			}
+			n, isNamed := types.Unalias(load.Type()).(*types.Named)
+			if !isNamed || n.Obj().Pkg() == nil || !an.InModulePkg(n.Obj().Pkg()) {
+				return
+			}
+			field, holds := holdsMutable(n)
+			if !holds {
+				return
+			}
+			if _, isLocal := load.X.(*ssa.Alloc); isLocal {
+				return // reading back a local value
+			}
+			// the loaded struct value is stored somewhere else: a copy
+			copied := false
+			for _, ref := range *load.Referrers() {
+				if st, ok := ref.(*ssa.Store); ok && st.Val == ssa.Value(load) {
+					copied = true
+				}
+			}
+			if !copied {
+				return
+			}
+			c.R.Add(rule, c.fk(f), "copy-by-value:"+n.Obj().Name(), c.pos(in), false, "a "+n.Obj().Name()+" is copied by value: the copy shares the object its field "+field+" points to (which is written after construction) with the original — routers configured from the copy and from the original are no longer independent")
+		})
+	}
+}
+
+// ruleOnlyKnownConstantKeys — C04.R13 / C18.R10: the library itself puts exactly three constant keys into a handler
+// map: HEAD (with GET), OPTIONS and the internal 405 key. Every other key comes from the caller's method list. A
+// further constant key (the router-wide TRACE handler kept as a map entry of the root) is counted by the recount as
+// a registered method and added to the summaries a second time.
+func ruleOnlyKnownConstantKeys(c *Ctx, rule string) {
+	a := c.A
+	c.R.Rule(c.R.Property+"."+rule, 3, "the only constant keys the library installs in a handler map are HEAD, OPTIONS and the 405 key")
+	key405, _ := strconv.Unquote(a.NotAllowedKey)
+	allowed := map[string]bool{"HEAD": true, "OPTIONS": true, key405: true}
+	n := 0
+	for _, f := range c.libFuncs() {
+		an.AllInstrs(f, func(in ssa.Instruction) {
+			mu, ok := in.(*ssa.MapUpdate)
+			if !ok {
+				return
+			}
+			if _, isH := fieldLoadOf(mu.Map, a.NodeT, a.FHandlers); !isH {
+				// a map literal that becomes a handler map (tree.New)
+				mm, isMake := mu.Map.(*ssa.MakeMap)
+				if !isMake {
+					return
+				}
+				becomes := false
+				for _, ref := range *mm.Referrers() {
+					if st, ok := ref.(*ssa.Store); ok && st.Val == ssa.Value(mm) {
+						if _, field, _, ok := fieldStore(st, a.NodeT); ok && field == a.FHandlers {
+							becomes = true
+						}
+					}
+				}
+				if !becomes {
+					return
+				}
+			}
+			s, isC := strConst(mu.Key)
+			if !isC {
+				return
+			}
+			n++
+			c.R.Add(rule, c.fk(f), "install:const"+strconv.Quote(s)+"/known-automatic-key", c.pos(in), allowed[s], ifelse(allowed[s], "one of the three automatic entries", "the library installs a handler under the constant key "+strconv.Quote(s)+": the recount and the Allow summaries treat it as a method the user registered on this node (for TRACE: the TRACE bit is added twice)"))
+		})
+	}
+	_ = n
 }
